@@ -120,6 +120,8 @@ def walk(w, rnd, profile, steps, opts):
             kw = {}
             if rnd.random() < 0.2:
                 kw = dict(willTopic="w/t", willMessage="bye", willQoS=rnd.randint(0, 2), willRetain=rnd.random() < 0.5)
+            elif rnd.random() < 0.1:
+                kw = dict(willQoS=rnd.randint(0, 2), willRetain=rnd.random() < 0.5)       # will options without a will: not used
             if rnd.random() < 0.2:
                 kw.update(username="u", password=rnd.choice(["pw", "pä€"]))
             ka = rnd.choice(opts.get("ka", [0, 0, 0, 2, 5]))
